@@ -14,6 +14,12 @@ def fileRefs (l : List Nat) : List Ref := l.map fun i => ⟨i, []⟩
     `[⟨0,[1]⟩]` when `proto.Equal` to a pristine copy holds, `[⟨0,[0]⟩]` otherwise -/
 def descIntact : List Ref := [⟨0, [1]⟩]
 
+/-- a walk whose visitor returns an error at its `⌈n/2⌉`-th visit (`n` = length of the full walk):
+    it has seen exactly the first half of the full walk -/
+def halfWalk (w : World) (r : Ref) : List Ref :=
+  let full := (walkModel [] w r false).trace.map (·.1)
+  full.take ((full.length + 1) / 2)
+
 /-- the result of accessor `acc` on entity `r` of a freshly built (bidirectional) AST:
     declaration-ordered listings as sequences, derived relations sorted -/
 def freshResultQ (q : Ref → QKind → List Ref) (fdpt : Nat → List Nat)
@@ -33,6 +39,7 @@ def freshResultQ (q : Ref → QKind → List Ref) (fdpt : Nat → List Nat)
      | "services" => childRefs r.file [] 6 f.services.length
      | "exts" => childRefs r.file [] 7 f.exts.length
      | "walk" => (walkModel [] w r false).trace.map (·.1)
+     | "walkfail" => halfWalk w r
      | "syntax" => [⟨0, [if f.syn == "proto3" then 3 else if f.syn == "" || f.syn == "proto2" then 2 else 0]⟩]
      | "desc" => descIntact
      | _ => [])
@@ -48,6 +55,7 @@ def freshResultQ (q : Ref → QKind → List Ref) (fdpt : Nat → List Nat)
      | some s, "methods" => childRefs r.file r.path 2 s.methods.length
      | some s, "imports" => fileRefs (sortNat ((List.range s.methods.length).map fun mi => methodImports g ⟨r.file, [6, i, 2, mi]⟩).flatten)
      | some _, "walk" => (walkModel [] w r false).trace.map (·.1)
+     | some _, "walkfail" => halfWalk w r
      | some _, "desc" => descIntact
      | _, _ => [])
   | _, some f =>
@@ -71,6 +79,7 @@ def freshResultQ (q : Ref → QKind → List Ref) (fdpt : Nat → List Nat)
        | "deps" => sortRefs (q r .dependencies)
        | "dpts" => sortRefs (q r .dependents)
        | "walk" => if h.mapEntry then [] else (walkModel [] w r false).trace.map (·.1)
+       | "walkfail" => if h.mapEntry then [] else halfWalk w r
        | "desc" => descIntact
        | _ => [])
     | none =>
